@@ -55,6 +55,14 @@ def tie(ctx, tier_override=None, tag="tie", extra=()):
             res["oracle_diffs"].append((f, cases[i], mo[i], io[i], oo[i]))
     stats = json.load(open(os.path.join(out_dir, "stats.json")))
     res["stats"] = stats
+    # failures of the property's own observable on the implementation's answers (no model involved)
+    res["property_failures"] = []
+    pf = os.path.join(out_dir, "property_failures.txt")
+    if os.path.exists(pf):
+        for l in common.read_lines(pf):
+            p = l.split("\t")
+            if len(p) == 4:
+                res["property_failures"].append(tuple(p))
     seen = set()
     for i in range(n):
         if fams[i] not in seen and len(cases[i]) > 12:
@@ -79,6 +87,16 @@ def shrink(ctx, lines):
 def report(ctx, res):
     """Turn disagreements into violations.  Returns the number of concrete failing inputs."""
     found = 0
+    # the property evaluated directly on the implementation: one violation per distinct key
+    # (the key names the failing input, or the input class of a known finding)
+    seen = {}
+    for (fam, key, line, what) in res["property_failures"]:
+        seen.setdefault(key, []).append((fam, line, what))
+    for key, items in list(seen.items())[:12]:
+        fam, line, what = min(items, key=lambda t: len(t[1]))
+        found += 1
+        ctx.violation(key, "std %s: %s (%d such cases)" % (fam, what[:400], len(items)),
+                      case={"line": line, "family": fam}, expected="the property holds", observed=what[:400])
     # implementation vs independent oracle: the implementation breaks the mathematical definition
     od = res["oracle_diffs"]
     if od:
@@ -131,11 +149,18 @@ def run(ctx):
             continue
         md = [d for d in res["model_diffs"] if d[0] == fam]
         od = [d for d in res["oracle_diffs"] if d[0] == fam]
+        pf = [d for d in res["property_failures"] if d[0] == fam]
         n = res["fam_counts"].get(fam, 0)
+        # the correspondence obligation is about model = implementation (= independent oracle);
+        # property failures are reported as violations of their own (known findings are filtered there)
         ok = n > 0 and not md and not od
         ctx.obligations.append(common.Obligation(
             "correspondence:" + fam, "correspondence", ok,
-            "%d cases, %d model/implementation disagreements, %d implementation/Rust-std-oracle disagreements" % (n, len(md), len(od))))
+            "%d cases, %d model/implementation disagreements, %d implementation/Rust-std-oracle disagreements, "
+            "%d direct property failures on the implementation" % (n, len(md), len(od), len(pf))))
+        if ran and n == 0:
+            ctx.violation("obligation:correspondence:" + fam, "the harness produced no case of family " + fam,
+                          obligation="correspondence:" + fam, no_input=True)
     ctx.trusted.append("translator harness/src/tr/glu_std.rs (gluon_parser AST -> Gallina): name mapping Cons/Nil, Some/None, LT/EQ/GT, True/False; "
                        "`<>` at List resolves to std/list.glu's local semigroup.append; `compare` is the [Ord _] implicit")
     ctx.trusted.append("harness/src/bin/c19.rs: generators, Gluon driver functions, value canonicaliser, Rust-std oracles; coq/extract/c19/driver.ml decimal/byte conversions")
@@ -151,13 +176,15 @@ def run(ctx):
                           obligation="correspondence:" + fam, no_input=True, extra={"case": line, "model": m, "impl": im})
             found += 1
     broken = [o for o in ctx.obligations if not o.ok and o.kind in ("theorem", "translator", "audit")]
-    if (broken or not ran) and not found:
+    known = common.load_known(ctx.prop)
+    fresh = lambda: [v for v in ctx.violations if common.match_known(known, v) is None]
+    if (broken or not ran) and not fresh():
         # search: widen to the thorough generator; the oracle comparison yields the failing input
         if ran and ctx.tier != "thorough":
             res2 = tie(ctx, tier_override="thorough", tag="search")
             if res2 is not None:
-                found = report(ctx, res2)
-        if not found:
+                report(ctx, res2)
+        if not fresh():
             names = [o.name for o in broken] or ["correspondence (could not run: %s)" % getattr(ctx, "build_error", getattr(ctx, "harness_crash", "?"))[:300]]
             for nm in names[:5]:
                 ctx.violation("obligation:" + nm, "obligation no longer checks: " + nm, obligation=nm, no_input=True,
